@@ -259,6 +259,12 @@ def _rows(rep, prog):
                 idx, val = st.k[3], st.k[4]
                 want = Poly.atom(('[]', ('.', 'self', 'current_source_index_mapping'), tkey(A('branch_id'))))
                 okd = len(idx) == 1 and tkey(idx[0]) == tkey(want) and isinstance(val, Poly) and val.real_const() == 1 and st.k[2] is True
+            else:
+                # the same unit vector spelled as a row of the identity matrix: eye(n)[index of the source]
+                at_ = ld.as_atom() if isinstance(ld, Poly) else None
+                want = Poly.atom(('[]', ('.', 'self', 'current_source_index_mapping'), tkey(A('branch_id'))))
+                if isinstance(at_, tuple) and len(at_) == 3 and at_[0] == '[]' and isinstance(at_[1], tuple) and at_[1][:1] == ('eye',) and len(at_[1]) == 2 and at_[2] == tkey(want):
+                    okd = True
             rep.ob('R10.rows', name, True if (okc and okd) else (None if has_opaque(ld) else False), f'state row {lc!r:.80} ; feedthrough row {ld!r:.160}', site)
         else:
             ok = _mirror_key(tkey(lc)) == tkey(ld)
